@@ -158,6 +158,13 @@ class Fn:
             return '%s:%s' % (self.file, self.line)
         return '%s:%s' % (self.file, self.blocks[b]['t'].get('ln'))
 
+    def where_path(self, path):
+        for b in reversed(path):
+            ln = self.blocks[b]['t'].get('ln')
+            if ln:
+                return '%s:%s' % (self.file, ln)
+        return self.where()
+
     def local_name(self, l):
         if l == 0:
             return 'ret'
@@ -888,6 +895,8 @@ def canon(t):
     if k == 'deref':
         return canon(t[1])
     if k == 'call':
+        if len(t[2]) == 2 and t[1].endswith(('::index', '::index_mut')) and 'std::ops::Index' in t[1]:
+            return ('index', canon(t[2][0]), canon(t[2][1]))
         return ('call', t[1], tuple(canon(x) for x in t[2]))
     if k == 'arg':
         return ('arg', t[2])
